@@ -471,3 +471,10 @@ def a_loop_elem(xss):
     for xs in xss:
         xs.append("z")
     return len(xss[0])
+
+
+def i_round3(a, b):
+    return round(a / b, 3) != 1
+
+def i_round1_cmp(a, b):
+    return round(a / b, 1) >= 0.5
